@@ -74,6 +74,21 @@ impl Index {
     Ok(entries)
   }
 
+  /// The charms the explorer reports for an inscription (stored charms plus
+  /// the ones added on the fly, e.g. `lost`).
+  pub fn verif_effective_charms(&self, id: InscriptionId) -> Result<Option<u16>> {
+    Ok(
+      self
+        .inscription_info(query::Inscription::Id(id), None)?
+        .map(|(info, _, _)| {
+          info
+            .charms
+            .iter()
+            .fold(0u16, |acc, charm| acc | charm.flag())
+        }),
+    )
+  }
+
   /// Every outpoint with a stored entry.
   pub fn verif_utxo_outpoints(&self) -> Result<Vec<OutPoint>> {
     let rtx = self.database.begin_read()?;
